@@ -1919,10 +1919,16 @@ class t2data(object):
         allowed = ['HEAT', 'WATE', 'AIR ', 'MASS', 'DELV']
         convert = {'CO2 ':'COM2'}
         delgens = []
+        keepgens = []
         for gen in self.generatorlist:
             if gen.type in convert: gen.type = convert[gen.type]
-            elif not ((gen.type in allowed) or gen.type.startswith('COM')):
-                delgens.append((gen.block, gen.name))
+            if (gen.type in allowed) or gen.type.startswith('COM'): keepgens.append(gen)
+            else: delgens.append((gen.block, gen.name))
+        if len(delgens) > 0:
+            # delete unsupported generators from generator list and dictionary
+            # (rebuilt, as there may be several generators with the same key):
+            self.clear_generators()
+            for gen in keepgens: self.add_generator(gen)
         if warn and len(delgens) > 0:
             print('The following generators have types not supported' + \
                   ' by TOUGH2 and have been deleted:')
